@@ -1,6 +1,7 @@
 package main
 
 import (
+	"go/token"
 	"fmt"
 	"sort"
 	"strings"
@@ -258,6 +259,7 @@ func runC09(c *Ctx) {
 	}
 	c.AtLeast("R1", "file-system-mutating call sites classified", nSites, 40)
 	c.AtLeast("R1", "publish sites onto object paths", nPub, 4)
+	objectPresenceRule(c, "R6", sf)
 	c.Stat("mutating-sites", nSites)
 
 	// ---- R2: the published file was completely written and closed -----------------------------------
@@ -410,4 +412,134 @@ var c09Canaries = []Canary{
 	{Name: "fsck-rerun-aborts", ExpectKey: "C09.R4#fsck:rerun", Edits: []Edit{{File: "commands/command_fsck.go", Find: "			if os.IsNotExist(err) {\n				continue\n			}\n			ExitWithError(err)", Repl: "			ExitWithError(err)"}}},
 	{Name: "ssh-download-to-final", ExpectKey: "C09.R1", Edits: []Edit{{File: "tq/ssh.go", Find: "	f, err := tools.TempFile(a.tempDir(), t.Oid, a.fs)\n	if err != nil {\n		return err\n	}\n	tmpName := f.Name()\n	defer func() {\n		if f != nil {\n			f.Close()\n		}\n		os.Remove(tmpName)\n	}()\n\n	return a.doDownload(", Repl: "	f, err := os.Create(t.Path)\n	if err != nil {\n		return err\n	}\n	tmpName := f.Name() + \".x\"\n	defer func() {\n		if f != nil {\n			f.Close()\n		}\n		os.Remove(tmpName)\n	}()\n\n	return a.doDownload("}}},
 	{Name: "cleanup-removes-object", ExpectKey: "C09.R5", Edits: []Edit{{File: "fs/cleanup.go", Find: "				tracerx.Printf(\"Removing existing tmp object file: %s\", path)\n				os.RemoveAll(path)", Repl: "				tracerx.Printf(\"Removing existing tmp object file: %s\", path)\n				os.RemoveAll(f.ObjectPathname(oid))"}}},
+}
+
+// ---- shared rule: the presence of an object is judged together with its size ------------------------
+// An object counts as present (so that a copy, download, upload or store step may be skipped) only through a
+// size-exact test. A bare existence test on an object path treats a truncated leftover (interrupted copy, full
+// disk, crash) as the object. Decided program-wide by the provenance of the path argument of every existence
+// test; the sites that stat an object path without comparing its size are a frozen table with reasons.
+var presenceStatAllowed = map[string]string{
+	"(*tq.basicDownloadAdapter).download": "forgives a failed rename when another process already placed the object (the verified temp file was renamed first)",
+	"(*tq.SSHAdapter).doDownload":         "same idiom as the basic adapter",
+	"commands.delayedSmudge":              "decides only whether to delay; Smudge re-checks the size before the object is read",
+	"commands.migrateExportCommand":       "export queues missing objects; present ones are read through Smudge, which checks the size",
+	"(*fs.Filesystem).cleanupTmp":         "stale-temp cleanup: removes a temp object when the final one exists (never touches the final one)",
+	"(*commands.uploadContext).ensureFile": "push: decides only whether to re-clean from the work tree; a present file of the wrong size is reported by partitionTransfers' size comparison (C03.R4)",
+	"commands.uploadsWithObjectIDs":       "push --object-id: the stat result supplies the size that is sent",
+	"(*lfs.GitFilter).readLocalFile":      "fills in an unknown size for progress reporting after the file was opened",
+}
+
+func objectPresenceRule(c *Ctx, rule string, sf *storeFlow) {
+	p := c.P
+	isObj := func(v ssa.Value) bool {
+		if sf.isStore(v) {
+			return true
+		}
+		found := false
+		p.LeavesNoFields(v, func(x ssa.Value) FlowAct {
+			if cc, _, ok := CallResult(x); ok && CalleeName(cc.Common()) == "(*fs.Filesystem).ObjectReferencePaths" {
+				found = true
+				return Stop
+			}
+			return Descend
+		})
+		return found
+	}
+	nExact, nStat := 0, 0
+	for _, fn := range p.RepoFuncs(productPkg) {
+		root := fn
+		for root.Parent() != nil {
+			root = root.Parent()
+		}
+		name := FnName(root)
+		if strings.HasPrefix(name, "tools.") {
+			continue // the primitives themselves
+		}
+		for _, b := range fn.Blocks {
+			for _, in := range b.Instrs {
+				cc := AsCall(in)
+				if cc == nil {
+					continue
+				}
+				n := CalleeName(cc)
+				a := CallArgs(cc)
+				switch n {
+				case "tools.FileExistsOfSize":
+					if len(a) > 0 && isObj(a[0]) {
+						nExact++
+						c.OK(rule, "presence:size-exact@"+name, p.InstrPos(in), "object presence tested together with its size")
+					}
+				case "tools.FileExists", "tools.FileOrDirExists":
+					if len(a) > 0 && isObj(a[0]) {
+						c.Bad(rule, "presence:"+n+"@"+name, p.InstrPos(in), "an object is taken as present because a file exists at its path, without comparing the size: a truncated or wrong-sized leftover is treated as the complete object (the copy/transfer/store step is skipped)")
+					}
+				case "os.Stat", "os.Lstat":
+					if len(a) == 0 || !isObj(a[0]) {
+						continue
+					}
+					nStat++
+					// is the size of the stat result compared with something?
+					sized := false
+					call, _ := in.(*ssa.Call)
+					if call != nil {
+						for _, r := range Referrers(call) {
+							ex, ok := r.(*ssa.Extract)
+							if !ok || ex.Index != 0 {
+								continue
+							}
+							var walk func(v ssa.Value, d int)
+							walk = func(v ssa.Value, d int) {
+								if d > 4 {
+									return
+								}
+								for _, rr := range Referrers(v) {
+									if sc := AsCall(rr); sc != nil && strings.HasSuffix(CalleeName(sc), ".Size") {
+										if sv, ok := rr.(ssa.Value); ok {
+											for _, r3 := range Referrers(sv) {
+												if bo, ok := r3.(*ssa.BinOp); ok && (bo.Op == token.EQL || bo.Op == token.NEQ) {
+													if _, isC := bo.Y.(*ssa.Const); !isC {
+														sized = true
+													}
+												}
+												if ph, ok := r3.(*ssa.Phi); ok {
+													walk(ph, d+1)
+												}
+												if _, ok := r3.(*ssa.Store); ok {
+													sized = sized || false
+												}
+											}
+											// the size may be kept in a variable first
+											walk(sv, d+1)
+										}
+									}
+									if bo, ok := rr.(*ssa.BinOp); ok && (bo.Op == token.EQL || bo.Op == token.NEQ) && d > 0 {
+										if _, isC := bo.Y.(*ssa.Const); !isC {
+											sized = true
+										}
+									}
+									if ph, ok := rr.(*ssa.Phi); ok {
+										walk(ph, d+1)
+									}
+									if mi, ok := rr.(*ssa.MakeInterface); ok {
+										walk(mi, d+1)
+									}
+								}
+							}
+							walk(ex, 0)
+						}
+					}
+					if sized {
+						nExact++
+						c.OK(rule, "presence:stat+size@"+name, p.InstrPos(in), "stat of an object path whose size is compared")
+						continue
+					}
+					why, ok := presenceStatAllowed[name]
+					c.Check(ok, rule, "presence:stat-without-size@"+name, p.InstrPos(in), "known site: "+why,
+						"an object path is stat-ed and its size is not compared at a site the rules do not know: a truncated or wrong-sized file would count as the object")
+				}
+			}
+		}
+	}
+	c.AtLeast(rule, "size-exact object presence tests", nExact, 3)
 }
